@@ -421,6 +421,8 @@ def _map_method(it, box, name, args, kwargs):
             for k, v in other.items():
                 box.m = box.m.store(k, v)
             return None
+        if isinstance(other, (list, tuple)) and len(other) == 0:
+            return None
         raise OutsideSubset("map.update(%s)" % type(other).__name__)
     if name == 'copy':
         return MapBox(m.copy())
